@@ -142,6 +142,7 @@ def run(chk, which="C08"):
     dropped = []
     jobs = [(si, sh, fl, std) for fl, std in cfgs for si, sh in enumerate(shards)]
     results = core.pmap(lambda j: (j[2], j[3], build_and_run(j[0], j[1], j[2], j[3], nrandom, dropped)), jobs)
+    core.reach(chk, emit_tu([i for i in insts if i["id"] not in {d["id"] for d in dropped}][:24]), [[40, 1]], std="c++20")
     evals = 0
     nontrivial = set()
     per = {}
